@@ -218,11 +218,11 @@ def writeTL2 (d : Desc) (ty : Nat) (optimizeEmpty : Bool) : Val → Option Bytes
       if es.isEmpty && optimizeEmpty then some [] else
       if elemBit then
         match valsBools es with
-        | some bs => some (finishSize (tl2WriteSize bs.length ++ bitsWrite bs) optimizeEmpty)
+        | some bs => some (finishSize ((if bs.isEmpty then [] else tl2WriteSize bs.length) ++ bitsWrite bs) optimizeEmpty)
         | none => none
       else
         match writeElems d elem es with
-        | some body => some (finishSize (tl2WriteSize es.length ++ body) optimizeEmpty)
+        | some body => some (finishSize ((if es.isEmpty then [] else tl2WriteSize es.length) ++ body) optimizeEmpty)
         | none => none
     | _ => none
   | .dict es =>
@@ -230,7 +230,7 @@ def writeTL2 (d : Desc) (ty : Nat) (optimizeEmpty : Bool) : Val → Option Bytes
     | some (.dict elem) =>
       if es.isEmpty && optimizeEmpty then some [] else
       match writeElems d elem es with
-      | some body => some (finishSize (tl2WriteSize es.length ++ body) optimizeEmpty)
+      | some body => some (finishSize ((if es.isEmpty then [] else tl2WriteSize es.length) ++ body) optimizeEmpty)
       | none => none
     | _ => none
 /-- per-field (used, bytes) of the struct field loop -/
@@ -241,7 +241,8 @@ def writeFields (d : Desc) : List FieldD → Vals → Option (List Item)
     | some it, some rest => some (it :: rest)
     | _, _ => none
   | _, _ => none
-/-- array / dictionary elements, each with `optimizeEmpty = false` -/
+/-- array / dictionary elements, each with `optimizeEmpty = false`; an empty array has an empty body (no element count): `00`
+(onthefly after /repo 92d22a53, like generated code) -/
 def writeElems (d : Desc) (ty : Nat) : Vals → Option Bytes
   | .nil => some []
   | .cons v vs =>
